@@ -456,6 +456,15 @@ pub fn chain_state_pub<K: El, V: El>(s: &mut Sess<K, V>, state: u64, size: usize
     chain_state(s, state, size, next)
 }
 
+/// Draw one of the directed states that need no particular hasher: 0..=6, 8, 9.
+pub fn draw_state(rng: &mut Rng) -> u64 {
+    match rng.below(9) {
+        7 => 8,
+        8 => 9,
+        x => x,
+    }
+}
+
 fn chain_state<K: El, V: El>(s: &mut Sess<K, V>, state: u64, size: usize, next: &mut u64) -> bool {
     for _ in 0..size {
         if !s.insert_new(next) {
@@ -556,6 +565,52 @@ fn chain_state<K: El, V: El>(s: &mut Sess<K, V>, state: u64, size: usize, next: 
             *next = (*next).max(20 * b);
             true
         }
+        // zero slack: a resize in flight whose main table was shrunk to fit, so that every free
+        // slot is spoken for by an element waiting in the old table or by the insertions that
+        // will move them
+        8 => {
+            if !(s.fill_to_full(next, 4096) && s.insert_new(next)) {
+                return false;
+            }
+            // a few carried, a few removed from the main table again: different exact fits
+            for _ in 0..(size % 3) {
+                if !s.insert_new(next) {
+                    return false;
+                }
+            }
+            let mains = s.keys_at(false);
+            for k in mains.iter().take(size % 4) {
+                if !s.go(Op::k(Code::Remove, *k)) {
+                    return false;
+                }
+            }
+            s.go(Op::new(Code::ShrinkToFit)) && s.mon.state().old.is_some()
+        }
+        // the old table is the LARGER allocation: grow, remove most elements from both tables,
+        // shrink the main table to fit
+        9 => {
+            if !(s.fill_to_full(next, 4096) && s.insert_new(next)) {
+                return false;
+            }
+            let olds = s.keys_at(true);
+            let mains = s.keys_at(false);
+            let keep_old = 1 + size % 5;
+            for k in olds.iter().skip(keep_old) {
+                if !s.go(Op::k(Code::Remove, *k)) {
+                    return false;
+                }
+            }
+            for k in mains.iter().skip(size % 3) {
+                if !s.go(Op::k(Code::Remove, *k)) {
+                    return false;
+                }
+            }
+            if !s.go(Op::new(Code::ShrinkToFit)) {
+                return false;
+            }
+            let st = s.mon.state();
+            st.old.map_or(false, |o| o.table.len > 0 && o.table.buckets > st.main.buckets)
+        }
         // resize started by reserve: every element in the old table, the main table empty
         _ => {
             if s.mon.map.is_empty() {
@@ -650,7 +705,7 @@ pub fn chains(a: &Args, rep: &mut Report) {
     let mut classes_seen = [0u64; 4];
     for (ti, t) in templates.iter().enumerate() {
         for &size in &sizes {
-            for state in 0..8u64 {
+            for state in 0..10u64 {
                 for class in 0..4usize {
                     case += 1;
                     if case % sh.count != sh.index {
